@@ -151,6 +151,12 @@ pub fn pair(o: Opt) -> BoxedStrategy<(String, String)> {
 				sa.insert(0, x.to_string());
 				sb.insert(0, y.to_string());
 			}
+			// an encoded slash on one side, a real one on the other: "a%2Fb" vs "a", "b"
+			if absd % 7 == 2 {
+				sa.insert(0, "a%2Fb".to_string());
+				sb.insert(0, "b".to_string());
+				sb.insert(0, "a".to_string());
+			}
 			let scheme_b = if sd == 0 { s2 } else { s1.clone() };
 			let mut auth_b = if ad == 0 { a2 } else { a1.clone() };
 			// 20 %: b's authority is a CONFUSABLE spelling of a's: a delimiter percent-encoded ("u%40h" for "u@h",
@@ -169,7 +175,13 @@ pub fn pair(o: Opt) -> BoxedStrategy<(String, String)> {
 			if ta {
 				pa.push(String::new())
 			}
-			let mut pb = stem;
+			// a third of the time b spells the SHARED directories differently (every character percent-encoded, or
+			// the escapes in the other hex case): equal segments, other text, other length
+			let mut pb: Vec<String> = if qsame % 3 == 1 {
+				stem.iter().map(|seg| if seg == "." || seg == ".." || seg.is_empty() { seg.clone() } else if seg.contains('%') { seg.to_ascii_lowercase() } else { seg.bytes().map(|b| format!("%{:02X}", b)).collect::<String>() }).collect()
+			} else {
+				stem
+			};
 			pb.extend(sb);
 			if tb {
 				pb.push(String::new())
